@@ -11,6 +11,8 @@ package meeklite
 //@ ghostfield meeklite.meekConn reqcat BSeq
 //@ ghostfield meeklite.meekConn respcat BSeq
 //@ ghostfield meeklite.meekConn rdone BSeq
+//   nreq     number of round trips started (one per call of roundTrip)
+//@ ghostfield meeklite.meekConn nreq Int id=5001
 
 // what Read still holds from the last chunk
 //@ pred pend(c) := ite(c.rdBuf == nil, "", c.rdBuf.content)
@@ -63,12 +65,14 @@ package meeklite
 //@   serves C16 C10
 //@   requires c != nil && c.args != nil && c.args.url != nil && c.transport != nil
 //@   requires [C16:no_body_exceeds_65536] len(sndBuf) <= 65536
-//@   modifies c.reqcat, c.respcat, blocked, now
-//@   loop 1 invariant 0 <= retries && retries <= 10 && unchanged(c.reqcat, c.respcat, c.sessionID)
+//@   modifies c.reqcat, c.respcat, c.nreq, blocked, now
+//@   loop 1 invariant 0 <= retries && retries <= 10 && unchanged(c.reqcat, c.respcat, c.sessionID, c.nreq)
 //@   loop 1 decreases 10 - retries
 //@   assert_at Header).Set#1 [C16:every_request_carries_the_session_id] arg1 == "X-Session-Id" && arg2 == c.sessionID && c.sessionID == old(c.sessionID)
 //@   ghostset c.reqcat := ite(err == nil, cat(old(c.reqcat), seq(sndBuf)), old(c.reqcat))
 //@   ghostset c.respcat := ite(err == nil, cat(old(c.respcat), seq(res)), old(c.respcat))
+//@   ghostset c.nreq := old(c.nreq) + 1
+//@   ensures c.nreq == old(c.nreq) + 1
 //@   ensures [C16:response_buffer_is_private] err == nil ==> len(res) <= 65536 && (res == nil || fresh(res))
 //@   ensures err == nil ==> c.reqcat == cat(old(c.reqcat), seq(sndBuf)) && c.respcat == cat(old(c.respcat), seq(res))
 //@   ensures err != nil ==> c.reqcat == old(c.reqcat) && c.respcat == old(c.respcat)
@@ -80,11 +84,17 @@ package meeklite
 //@   serves C16 C10
 //@   requires c != nil && c.workerWrChan != nil && c.workerRdChan != nil && c.workerCloseChan != nil && c.workerWrChan != c.workerRdChan && c.args != nil && c.args.url != nil && c.transport != nil
 //@   requires len(c.reqcat) == 0 && len(c.respcat) == 0 && len(recvcat(c.workerWrChan)) == 0 && len(sentcat(c.workerRdChan)) == 0
-//@   modifies c.reqcat, c.respcat, star(c.workerWrChan), star(c.workerRdChan), star(c.workerCloseChan), c.closeOnce.*, blocked, now
+//@   modifies c.reqcat, c.respcat, c.nreq, star(c.workerWrChan), star(c.workerRdChan), star(c.workerCloseChan), c.closeOnce.*, blocked, now
 //@   loop 1 invariant [C16:bodies_are_the_written_bytes_in_order] cat(c.reqcat, seq(leftBuf)) == recvcat(c.workerWrChan)
 //@   loop 1 invariant [C16:responses_reach_read_in_order] sentcat(c.workerRdChan) == c.respcat
 //@   loop 1 invariant (leftBuf == nil || fresh(leftBuf)) && unchanged(c.args, c.transport, c.args.url)
 //@   loop 2 invariant cat(c.reqcat, seq(sndBuf)) == recvcat(c.workerWrChan) && wrSz == len(sndBuf) && sentcat(c.workerRdChan) == c.respcat && (sndBuf == nil || fresh(sndBuf)) && unchanged(c.args, c.transport, c.args.url)
+// Polling stops after Close only because the worker looks at the close channel before EVERY request:
+// each call of roundTrip is preceded, since the previous one, by a receive (select case) on
+// c.workerCloseChan.  Go's select picks among ready cases at random, so this is what "stops" can mean.
+//@   loop 1 invariant [C16:close_channel_is_polled_before_every_request] polled(c.workerCloseChan) - c.nreq >= old(polled(c.workerCloseChan) - c.nreq)
+//@   loop 2 invariant [C16:close_channel_is_polled_before_every_request] polled(c.workerCloseChan) - c.nreq >= old(polled(c.workerCloseChan) - c.nreq) + 1
+//@   assert_at meekConn).roundTrip#1 [C16:close_channel_is_polled_before_every_request] polled(c.workerCloseChan) - c.nreq >= old(polled(c.workerCloseChan) - c.nreq) + 1
 //@   ensures [C16:worker_closes_both_queues] chanclosed(c.workerRdChan) && chanclosed(c.workerWrChan) && chanclosed(c.workerCloseChan)
 //@   ensures [C16:bodies_are_a_prefix_of_the_written_bytes] len(c.reqcat) <= len(recvcat(c.workerWrChan)) && sub(recvcat(c.workerWrChan), 0, len(c.reqcat)) == c.reqcat
 //@   ensures [C16:responses_reach_read_in_order] sentcat(c.workerRdChan) == c.respcat
